@@ -361,30 +361,41 @@ class Lint:
                             not s[2][1][1][1] and s[2][1][1][0] in aliases and s[1][0] not in aliases:
                         aliases.add(s[1][0])
                         changed = True
-        prep = set()         # locals holding &mut v / the slice obtained from it
-        for blk in B.blocks:
-            for s in blk["s"]:
-                if s[0] == "a" and not s[1][1] and s[2][0] == "ref" and s[2][2][0] in (aliases | prep) and \
-                        s[2][2][1] in ([], ["*"]):
-                    prep.add(s[1][0])
+        # locals on the way from `&mut v` to the receiver of a sort call (traced backwards from the sort)
+        prep = set()
         sort_blocks = set()
-        ok_calls = set()
-        for _ in range(3):
-            for c in B.calls:
-                ln = last(c.name or "")
-                if not c.args or c.args[0][0] not in ("c", "m"):
+        for c in B.calls:
+            if not last(c.name or "").startswith("sort") or not c.args or c.args[0][0] not in ("c", "m"):
+                continue
+            visited = set()
+            st = [c.args[0][1][0]]
+            found = False
+            while st:
+                x = st.pop()
+                if x in visited:
                     continue
-                a0 = c.args[0][1][0]
-                if a0 in prep and ln in ("deref_mut", "as_mut_slice", "as_mut"):
-                    prep.add(c.dest[0])
-                    ok_calls.add(c.block)
-                if a0 in prep and ln.startswith("sort"):
-                    sort_blocks.add(c.block)
-            for blk in B.blocks:
-                for s in blk["s"]:
-                    if s[0] == "a" and not s[1][1] and s[2][0] == "ref" and s[2][2][0] in prep and \
-                            s[2][2][1] in ([], ["*"]):
-                        prep.add(s[1][0])
+                visited.add(x)
+                ds = defs.get(x, [])
+                if len(ds) != 1:
+                    continue
+                _, d = ds[0]
+                if d[0] == "callres":
+                    fn = cfg.callee_of(d[1]["f"])
+                    if last(cfg.callee_name(fn) or "") in ("deref_mut", "as_mut_slice", "as_mut") and d[1]["a"] and \
+                            d[1]["a"][0][0] in ("c", "m"):
+                        st.append(d[1]["a"][0][1][0])
+                    continue
+                rv = d[2]
+                if rv[0] == "ref" and rv[2][1] in ([], ["*"]):
+                    if rv[2][0] in aliases:
+                        found = True
+                    else:
+                        st.append(rv[2][0])
+                elif rv[0] == "use" and rv[1][0] in ("c", "m") and not rv[1][1][1]:
+                    st.append(rv[1][1][0])
+            if found:
+                sort_blocks.add(c.block)
+                prep |= visited
         if not sort_blocks:
             return False, "never sorted"
         seen = set()
